@@ -2363,3 +2363,7 @@ func (n *pkgNorm) removeDead() map[string][]edit {
 	}
 	return edits
 }
+
+// InInventory reports whether the function (key "Recv.name" or "name") of the
+// package belongs to the reviewed function inventory.
+func InInventory(pkgPath, name string) bool { return knownFuncs[pkgPath+"\t"+name] }
